@@ -113,6 +113,17 @@ Theorem C13_otel_same_trace : forall c rq fs tracer,
 Proof. exact otel_same. Qed.
 Print Assumptions C13_otel_same_trace.
 
+(* ---- histories: a subscription does not depend on earlier subscriptions on the same client object,
+        and leaves the object as it found it.  BY CONSTRUCTION of the model (call returns the client it
+        was given, as execute_ws works on copies); its force is the history tie of the harness, which
+        compares every call of 2-4-call histories on one real client object with run_ws of that call
+        alone and snapshots vars(client) / module state ---- *)
+Theorem C13_history_independent : forall cl calls,
+  snd (run_history cl calls) = cl /\
+  fst (run_history cl calls) = map (fun c => run_ws (cfg_of cl (fst (fst c))) (snd (fst c)) (snd c)) calls.
+Proof. exact history_independent. Qed.
+Print Assumptions C13_history_independent.
+
 (* ================= refutations of the full statements on the faithful model ================= *)
 Definition C0 := {| c_url := "ws://x"; c_headers := []; c_origin := None; c_init_payload := None;
                     c_kw_headers := None; c_kw_other := [] |}.
